@@ -10,7 +10,8 @@ use serde::{Deserialize, Serialize};
 use simple_sds::int_vector::{IntVector, IntVectorWriter};
 use simple_sds::ops::{Access, BitVec, Select, SelectZero, VectorIndex};
 use simple_sds::rl_vector::RLBuilder;
-use simple_sds::sparse_vector::SparseBuilder;
+use simple_sds::sparse_vector::{SparseBuilder, SparseVector};
+use simple_sds::ops::{PredSucc, Rank};
 use simple_sds::wavelet_matrix::wm_core::WMCore;
 use simple_sds::wavelet_matrix::WaveletMatrix;
 use std::fmt::Debug;
@@ -295,6 +296,34 @@ fn check_constructors(ctx: &mut Ctx) {
     }
     for (u, o) in [(0usize, 0usize), (0, 1), (5, 5), (5, 6), (5, usize::MAX), (1 << 30, (1 << 30) + 1)] {
         ctx.expect(|| "SparseBuilder.new[ones vs universe]".to_string(), guard(|| SparseBuilder::new(u, o).is_ok()), &(o <= u), || json!({"x": case(), "call": format!("SparseBuilder::new({}, {})", u, o)}));
+    }
+    // Extreme universes: the constructors are total up to usize::MAX, and what they build answers. (Never with
+    // zero values: an empty vector over a huge universe gets a bucket bitvector of universe / 2 bits.)
+    for u in [1usize << 63, (1 << 63) + 1, usize::MAX - 1, usize::MAX] {
+        for o in [1usize, 2, 3, 5] {
+            let pos: Vec<usize> = (0..o).map(|i| if i + 1 == o { u - 1 } else { (u / o) * i + i }).collect();
+            let call = || format!("SparseBuilder::new({}, {}), set {:?}", u, o, pos);
+            ctx.expect(|| "SparseBuilder.multiset[extreme universe]".to_string(), guard(|| { let _ = SparseBuilder::multiset(u, o); true }), &true, || json!({"x": case(), "call": format!("SparseBuilder::multiset({}, {})", u, o)}));
+            let built = guard(|| {
+                let mut b = SparseBuilder::new(u, o).map_err(|e| e.to_string())?;
+                for &p in &pos {
+                    b.try_set(p).map_err(|e| e.to_string())?;
+                }
+                SparseVector::try_from(b).map_err(|e| e.to_string())
+            });
+            match built {
+                Ok(Ok(sv)) => {
+                    let last = (o - 1, u - 1);
+                    let got = guard(|| (sv.len(), sv.count_ones(), sv.rank(usize::MAX), sv.rank(u - 1), sv.get(u - 1), sv.select(o - 1), sv.select(o), sv.predecessor(usize::MAX).next(), sv.successor(u - 1).next(), sv.successor(u).next(), sv.successor(0).next(), sv.one_iter().collect::<Vec<_>>()));
+                    let want = (u, o, o, o - 1, true, Some(u - 1), None, Some(last), Some(last), None, Some((0, pos[0])), pos.iter().copied().enumerate().collect::<Vec<_>>());
+                    ctx.expect(|| "SparseVector[extreme universe](len, count_ones, rank, get, select, predecessor, successor, one_iter)".to_string(), got, &want, || json!({"x": case(), "call": call()}));
+                }
+                Ok(Err(e)) => {
+                    ctx.require(|| "SparseBuilder.new[extreme universe]".to_string(), false, || json!({"x": case(), "call": call()}), || json!({"observed": format!("Err({})", e), "expected": "Ok"}));
+                }
+                Err(msg) => ctx.panic_violation("SparseBuilder.new[extreme universe]", &msg, Some("Ok".to_string()), || json!({"x": case(), "call": call()})),
+            }
+        }
     }
     for (s, l) in [(0usize, usize::MAX), (1, usize::MAX), (usize::MAX, 1), (usize::MAX, 0), (1 << 63, 1 << 63), (1 << 63, (1 << 63) - 1), (usize::MAX - 1, 2)] {
         let fits = (s as u128 + l as u128) <= usize::MAX as u128;
